@@ -55,11 +55,15 @@ CHECKS = {
  "C10": dict(technique="Lean 4 proof (printing a percent-doubled text gives back the text; the message contains texts and values verbatim) + format tables regenerated from the C sources by a clang-AST translator with decidable typing obligations + message differential under ASan",
    text="Theorems C10_double_then_print, C10_assert_message, C10_contains (Props/C10.lean) for every expression text, value text and template; tie (1): translate/formats.py re-extracts on every run every assert_true call site (format literal or variable, C types of the variadic arguments), every constructor's value templates and the legacy macros, and Lean checks the generated obligations (every conversion reads an argument of its width; non-literal formats are only the doubled message; value templates use pointer-width conversions; legacy macros pass the text through %s); tie (2): messages of every constraint kind, legacy assertion and mock parameter check produced by the real code for texts over {%,s,d,n,5,backslash,quote,...} and integers across the intptr_t range are compared with the model and searched for the literal texts and values.",
    ref="§6 C10"),
+ "C12": dict(technique="Lean 4 proofs over all 64-bit values, sizes and addresses (return, box/unbox, by-value copy, set-contents frame, capture of the low bytes, little- and big-endian) + guarded differential sweep under ASan",
+   text="Theorems C12_will_return, C12_box_roundtrip, C12_by_value, C12_set_contents_written, C12_set_contents_frame, C12_capture, C12_capture_big_endian (Props/C12.lean); tie: boundary and random intptr_t values, double bit patterns (NaN payloads, signed zeros, subnormals, infinities), structures of 1-64/100/257/1000 bytes served three times by one expectation, output parameters at every size/offset inside 0xAA-filled heap blocks, captures into 1/2/4/8-byte variables between guard bytes and into mocks whose parameter names are prefixes of one another, all on the real code in an ASan build.",
+   ref="§6 C12"),
 }
 MOCK_NOTE = ("Trusted: Lean kernel, harness/mock_ops.c and the CGREEN_VERIF queue-dump hook, the generators in harness/mock_checks.py. Modelled, not verified: parameter "
              "constraints are integer eq/ne/lt/gt clauses on up to three parameters, return values are integers; side effects, content setters, "
              "capture and double clauses are covered by C12/C15/C16; removal of never_expect entries is modelled as a filter (equivalent under the invariant of at most one per function).")
-NOTES = {"C10": "Trusted: Lean kernel, translate/formats.py (clang-14 JSON AST walk; kept to call sites, literals and types), harness/cmp_probe.c (captures the message with vsnprintf, i.e. glibc's printf family as the judge of what a format prints). Modelled, not verified: glibc printf conversions as modelled by Fmt.parseConv; double-valued messages (%f) are typed but their digits are not compared; the +512 slack of the message buffer is not proved sufficient (ASan watches it).",
+NOTES = {"C12": "Trusted: Lean kernel, harness/val_probe.c, ASan as the judge of out-of-bounds writes. The model is thin: the theorems contribute the quantifier, the assurance against a wrong size or address in the C comes from the sweep. Assumed: bit-preserving loads/stores of double by the compiler and ABI; little-endian host (the big-endian branch is proved in the model but not executed).",
+         "C10": "Trusted: Lean kernel, translate/formats.py (clang-14 JSON AST walk; kept to call sites, literals and types), harness/cmp_probe.c (captures the message with vsnprintf, i.e. glibc's printf family as the judge of what a format prints). Modelled, not verified: glibc printf conversions as modelled by Fmt.parseConv; double-valued messages (%f) are typed but their digits are not compared; the +512 slack of the message buffer is not proved sufficient (ASan watches it).",
          "C16": "Trusted: Lean kernel, harness/tok_probe.c, the generated bind_probe translation unit, gcc's preprocessor (stringification). Modelled: identifiers contain no comma, parenthesis or white space; a trailing comma (which the preprocessor cannot produce) is outside the model.",
          "C20": "Trusted: Lean kernel, harness/vec_ops.c, harness/scenario_run.c, AddressSanitizer/UBSan as the judge of memory safety. Partial: the theorem covers CgreenVector (which backs expectations, constraints, parameter names and the runner's test list); fixed buffers, the breadcrumb and suite arrays are covered only by the sanitizer sweep, and memory safety of code the sweep does not reach is not shown.",
          "C05": "Trusted: Lean kernel, harness/cmp_probe.c, the Python oracles. Modelled, not verified: libc strcmp/strstr/strlen/memcmp as Lean definitions (C05_begins/C05_ends carry the explicit 2^32/2^31 length guards the C's unsigned/int intermediates impose); NULL string operands are covered by the model but not driven by the probe.",
